@@ -31,6 +31,7 @@ type built struct {
 	CipherR   int64
 	CipherWN  int64 // number of writes on the dialled connection in the tunnel phase
 	DCRead0   int64 // bytes the proxy read from the dialled connection before it replied to the client
+	DCSched   []int // sizes the proxy's Reads on the dialled connection returned up to the reply
 	LCSched   []int // sizes the proxy's Reads on the client connection returned up to the reply
 	TReq      int64 // time of the proxy's first read on the client connection (lower bound of readRequest's t0)
 	TResp     int64 // time of its last read before the reply (lower bound of writeResponse's time.Now())
@@ -73,6 +74,7 @@ func buildTrace(sc *scenario) built {
 			r0 += int64(e.N)
 		case e.Who == "DC" && e.Op == "R":
 			r0f += int64(e.N)
+			b.DCSched = append(b.DCSched, e.N)
 			if weak {
 				b.CipherR += int64(e.N) // handshake, reply head and whatever tunnel bytes net/http's transport read ahead
 			}
